@@ -29,6 +29,12 @@ def c05(res, rng, tier):
              b"c__builtin__\nbytearray\nC\x06abcdef\x85RU\x02xy\x86.",
              b"(\x96\x06\x00\x00\x00\x00\x00\x00\x00abcdefC\x02xy\x96\x01\x00\x00\x00\x00\x00\x00\x00zl.",
              b"(c_codecs\nencode\nX\x03\x00\x00\x00abcX\x06\x00\x00\x00latin1\x86R\x96\x03\x00\x00\x00\x00\x00\x00\x00xyzU\x01qt."]
+    # a list appended to an earlier snapshot of itself (DUP / memo copy of the slice header, same backing array):
+    # cyclic in Python, a finite tree in Go - it must re-encode like any other value
+    for n in range(1, 10):
+        items = b"".join(b"K" + bytes([i]) + b"a" for i in range(n))
+        extra += [b"]" + items + b"2a.", b"]q\x00" + items + b"h\x00a.", b"]" + items + b"2\x85a.", b"]" + items + b"22\x86a.",
+                  b"](" + b"".join(b"K" + bytes([i]) for i in range(n)) + b"e2(K\x09" + b"2e.", b"]" + items + b"2a2a."]
     dom += [("extra", d) for d in extra]
     # wide results: thousands of elements in one list / tuple / dict / nested pairs (node count, not depth)
     import struct as _st
@@ -59,6 +65,33 @@ def c05(res, rng, tier):
         for p in range(6):
             elines.append("enc %d %s - %s" % (p, su, toks)); emeta.append((i, p, dump))
     eimpl, emodel = run_enc("C05", elines)
+    # the same chain on the decoded object itself, in one process (the values above are rebuilt from their dumps,
+    # which forgets what the object shares with others - backing arrays, pointers): same outcome, same bytes
+    first_of = {}
+    for j, (i, p, dump) in enumerate(emeta):
+        first_of.setdefault(i, j)
+    chain_in = sorted(first_of)
+    chain_out = C.implrun(["rechain %s %s %s" % (meta[i][2], meta[i][3], meta[i][1].hex()) for i in chain_in])
+    for i, co in zip(chain_in, chain_out):
+        ps = co.split(" | ")
+        if len(ps) != 6:
+            continue
+        for p in range(6):
+            cls, hexb, _ = enc_obs(eimpl[first_of[i] + p])
+            want = ("ok " + hexb) if cls == "ok" else cls
+            got = ps[p]
+            if cls == "ok" and got.startswith("ok "):
+                import pkl
+                same = got == want or pkl.canon(bytes.fromhex(got[3:])) == pkl.canon(bytes.fromhex(hexb))
+            else:
+                same = got.split(" ")[0] == want.split(" ")[0] and (not got.startswith("err") or got == want)
+            if not same:
+                res.violation("re-encoding the decoded object itself at protocol %d gives %s, a copy of the same value gives %s"
+                              % (p, got[:120], want[:120]),
+                              {"kind": "impl", "input_hex": meta[i][1].hex(), "pydict": meta[i][2], "strict": meta[i][3], "protocol": p,
+                               "decoded_object": got[:600], "rebuilt_copy": want[:600],
+                               "cmd": "echo 'rechain %s %s %s' | harness/go/implrun" % (meta[i][2], meta[i][3], meta[i][1].hex()[:400])})
+                break
     from props_enc import LAST_ENV
     # theorem redecode (Proofs/RoundTrip.v): inside its fragment the model's decode -> reify -> encode
     # chain must produce the bytes the implementation produces for the value it decoded
@@ -149,7 +182,7 @@ def c14(res, rng, tier):
     q = tier == "quick"
     dom, hist = decoder_domain(rng, tier, "C14")
     r = rng.fork("sel")
-    sel = [(t, d) for (t, d) in dom if t in ("kept", "gen", "bomb")]
+    sel = [(t, d) for (t, d) in dom if t in ("kept", "gen", "bomb", "sep")]
     sel += [(t, d) for (t, d) in dom if t in ("corpus", "mut", "soup") and r.below(3 if q else 1) == 0]
     sel += [(t, d) for (t, d) in dom if t == "sweep" and r.below(40) == 0]
     cand, _ = valid_pickles(rng.fork("valid"), tier)
